@@ -269,6 +269,60 @@ type probeSum struct {
 	} `tlbSumType:"four#_"`
 }
 
+func jettonLikeBody(cons int) (any, *cell.Cell) {
+	type body struct {
+		tlb.SumType
+		Transfer struct {
+			QueryID uint64
+			Amount  tlb.VarUInteger16
+		} `tlbSumType:"transfer#0f8a7ea5"`
+		Burn struct {
+			QueryID uint64
+		} `tlbSumType:"burn#595f07bc"`
+	}
+	var v body
+	b := &te.B{}
+	if cons == 0 {
+		v.SumType = "Transfer"
+		v.Transfer.QueryID = 0x1122334455667788
+		v.Transfer.Amount = tlb.VarUInteger16(*big.NewInt(1_000_000))
+		b.Uint(0x0f8a7ea5, 32).Uint(0x1122334455667788, 64).VarUint(big.NewInt(1_000_000), 16)
+	} else {
+		v.SumType = "Burn"
+		v.Burn.QueryID = 7
+		b.Uint(0x595f07bc, 32).Uint(7, 64)
+	}
+	w, _ := b.Cell()
+	return v, w
+}
+
+func nftLikeBody(cons int) (any, *cell.Cell) {
+	type body struct {
+		tlb.SumType
+		Burn struct {
+			Flag bool
+		} `tlbSumType:"burn$101"`
+		Transfer struct {
+			QueryID uint64
+			Forward tlb.Uint4
+		} `tlbSumType:"transfer#5fcc3d14"`
+	}
+	var v body
+	b := &te.B{}
+	if cons == 0 {
+		v.SumType = "Transfer"
+		v.Transfer.QueryID = 9
+		v.Transfer.Forward = 11
+		b.Uint(0x5fcc3d14, 32).Uint(9, 64).Uint(11, 4)
+	} else {
+		v.SumType = "Burn"
+		v.Burn.Flag = true
+		b.Uint(5, 3).Bit(true)
+	}
+	w, _ := b.Cell()
+	return v, w
+}
+
 func harnesses(r *fw.Run) []fw.HarnessSpec {
 	seed := int(r.Seed)
 	var hs []fw.HarnessSpec
@@ -429,6 +483,26 @@ func harnesses(r *fw.Run) []fw.HarnessSpec {
 		}
 		ws, _ := sb.Cell()
 		compare(c, "probe-sum:"+string(s.SumType), s, ws)
+	})
+
+	// two user schemas in one program that give their body type the same Go name (declared inside two functions, so
+	// both print as c04.body) and a constructor of the same name with a different tag and different fields: each value
+	// carries the tag and fields of its own declaration, whichever type the codec met first
+	add("sum-types-with-equal-names", 0, func(c *enum.Ctx) {
+		first := c.ChooseFree(2)
+		cons := c.ChooseFree(2)
+		c.Case([]byte(fmt.Sprintf("equal-names/%d/%d", first, cons)), true)
+		c.Sample(map[string]any{"first_schema": first, "constructor": cons})
+		c.Label("schemas in order %d, constructor %d", first, cons)
+		for i := 0; i < 3; i++ {
+			if (i+first)%2 == 0 {
+				v, want := jettonLikeBody(cons)
+				compare(c, "equal-names:jetton-like", v, want)
+			} else {
+				v, want := nftLikeBody(cons)
+				compare(c, "equal-names:nft-like", v, want)
+			}
+		}
 	})
 
 	add("grams-and-addresses", 2, func(c *enum.Ctx) {
